@@ -43,7 +43,7 @@ func vRunC18(c *vCase) {
 		c.Inconclusive("setup", "Open: %v", err)
 		return
 	}
-	defer rd.Close()
+	defer func() { rd.Close() }()
 	if vChance(r, 0.3) { // start somewhere else than pointer 0 (both pointers equal: an empty ring)
 		start := uint64(vPick(r, 1, size-1, size, size+1, 1<<20, 1<<40)) + uint64(r.Intn(size))
 		w.desc.writePointer = start
@@ -99,6 +99,18 @@ func vRunC18(c *vCase) {
 		return true
 	}
 	for op := 0; op < nops; op++ {
+		if vChance(r, 0.03) {
+			// the reader detaches and attaches again in mid-stream: what was written and not yet read is still to be read
+			rd.Close()
+			rd2, _ := NewRingBuffer(name+"_buffer", name+"_description")
+			if err := rd2.Open(); err != nil {
+				c.Inconclusive("setup", "re-Open: %v", err)
+				return
+			}
+			rd = rd2
+			note("reopen")
+			c.Cov("reader_reattached", 1)
+		}
 		switch k := r.Intn(10); {
 		case k < 4: // write
 			n := sz()
